@@ -240,6 +240,7 @@ func runC18(c *Ctx) {
 
 	ruleLMTPLoopComplete(c)
 	ruleLMTPFlag(c)
+	ruleLineLimitCounting(c)     // the client's reply reader sits on the same limiter: every LF resets the count, wherever the network cuts the replies
 	ruleClientDeadlinesPaired(c) // every per-recipient reply is waited for under the submission timeout
 
 	R.Rule("R-lmtp-error-not-lost", "E4", "a per-recipient SMTPError flows to the callback or, when no callback was supplied, to Close's return value; any other read error is returned", 2)
